@@ -98,3 +98,40 @@ def columns(case):
             if not (np.array_equal(n1[:, 0], n3[:, c]) and np.array_equal(e1[:, 0], e3[:, c]) and np.array_equal(s1[:, 0], s3[:, c])):
                 bad.append(dict(K=K, nt=nt, column=c))
     return dict(reproduced=bool(bad), failing=bad[:4])
+
+
+@reg('C07.reconf')
+def reconf(case):
+    """one Richardson object, reconfigured between uses: each use must remove the modelled terms of the CURRENT configuration"""
+    import numdifftools.extrapolation as ex
+    cfgs = [(2.0, 1, 1, 2), (4.0, 1, 1, 2), (4.0, 2, 2, 2), (2.0, 2, 2, 3), (2.0, 1, 3, 3), (1.6, 1, 3, 1), (2.0, 1, 1, 2)]
+    r = ex.Richardson(step_ratio=cfgs[0][0], step=cfgs[0][1], order=cfgs[0][2], num_terms=cfgs[0][3])
+    bad = []
+    for (ratio, step, order, nt) in cfgs:
+        r.step_ratio, r.step, r.order, r.num_terms = ratio, step, order, nt
+        K = nt + 3
+        h = 0.5 * (1.0 / ratio) ** np.arange(K)
+        L = 1.25
+        a = [0.7, -1.3, 0.4, 2.0][:nt]
+        seq = (L + sum(a[j] * h ** (order + step * j) for j in range(nt))).reshape(-1, 1)
+        new, err, st = r(seq, h.reshape(-1, 1))
+        fresh = ex.Richardson(step_ratio=ratio, step=step, order=order, num_terms=nt)(seq, h.reshape(-1, 1))[0]
+        dev = float(np.max(np.abs(new - L)))
+        devf = float(np.max(np.abs(fresh - L)))
+        if dev > 1e-9 + 100 * devf:
+            bad.append(dict(config=dict(step_ratio=ratio, step=step, order=order, num_terms=nt), max_dev_from_L=dev,
+                            fresh_object_dev=devf))
+    return dict(reproduced=bool(bad), failing=bad[:3], statement='a reconfigured Richardson object removes the modelled terms of its current configuration')
+
+
+@reg('C07.intcfg')
+def intcfg(case):
+    import numdifftools.extrapolation as ex
+    bad = []
+    for (ratio, step, order, nt) in [(2, 1, 1, 2), (3, 2, 2, 3), (4, 1, 2, 1), (2, 2, 1, 4), (np.int64(2), np.int64(1), np.int64(1), 2)]:
+        a = ex.Richardson._r_matrix(ratio, step, nt, order)
+        b = ex.Richardson._r_matrix(float(ratio), float(step), nt, float(order))
+        if not np.array_equal(np.asarray(a, dtype=float), b):
+            bad.append(dict(step_ratio=repr(ratio), step=repr(step), order=repr(order), num_terms=nt, matrix=np.asarray(a).tolist(),
+                            expected=b.tolist()))
+    return dict(reproduced=bool(bad), failing=bad[:2], statement='_r_matrix with integer-typed configuration == float configuration')
